@@ -80,7 +80,7 @@ check("C02", "exploration",
 check("C07", "exploration",
       [dict(world="heap", mode=7, variants=V_TREES, quick=60000, thorough=6000000)],
       RULE_SEQ, ["src/heap.c", "src/common.c", "src/bintree.c", "include/cstl/heap.h"],
-      required_probes=["push_to_2^k", "pop_from_2^k", "pop_empty", "swap"])
+      required_probes=["push_to_2^k", "pop_from_2^k", "pop_empty", "swap", "heap_reached_256"])
 
 mtext("C01",
       "Seeded random histories (60k quick / 6M thorough; key universes 1..1500 with heavy duplication, ascending/descending/zig-zag streams, hinted and unhinted inserts, "
@@ -169,7 +169,7 @@ check("C08", "exploration",
       [dict(world="map", mode=8, variants={"rel": 0.8, "asan": 0.2}, quick=60000, thorough=6000000)],
       RULE_SEQ + "; a quarter of the runs attach an allocation failure to some inserts",
       ["src/map.c", "src/rbtree.c", "src/bintree.c", "include/cstl/map.h"],
-      required_probes=["insert_new", "insert_existing", "alloc_fail_fired", "erase_present", "erase_absent", "erase_iterator", "find_present", "find_absent", "map_clear"])
+      required_probes=["insert_new", "insert_existing", "alloc_fail_fired", "erase_present", "erase_absent", "erase_iterator", "find_present", "find_absent", "map_clear", "comparator_consults_another_map"])
 mtext("C08",
       "Seeded histories of insert (new key / existing key value carried by a different key object), find, erase by key, erase by iterator and clear against a dict model; "
       "return codes and iterator contents are compared exactly (stored pointers, end iterator), every map node is a sim-heap block so 'one node per entry, freed exactly once, nothing left after clear' "
